@@ -64,6 +64,7 @@ type Interp struct {
 	// statistics
 	instrs         int
 	unknownAsserts int
+	resolved       int
 	droppedSends   int
 	usedInternal   bool
 	funcsSeen      map[string]bool
